@@ -199,6 +199,8 @@ def process(chk, col, fam_cases, use_driver, pool):
                 chk.count(f"nodes:{min(len(r['nodes']), 41) // 5 * 5:02d}+")
                 t = r["topo"]
                 chk.count("topo:" + (t["err"] if isinstance(t, dict) else "ok"))
+                for pn in r["per"]:
+                    chk.count("bfs(node):" + (pn["bfs"]["err"] or "ok"))
             elif op["op"] in ("add_child", "remove"):
                 chk.count(f"op:{op['op']}:" + (r["err"] if isinstance(r, dict) else "ok"))
         col.oracle(case, verdicts)
@@ -289,7 +291,7 @@ def run(chk: common.Check):
         "TaskGraph/JobGraph cached_property critical_path_runtime and JobGraph._completion_time are reset by the harness before each read",
         "oracle clauses for longest path / critical path are evaluated for all-positive weights only (zero / negative weights: correspondence only)",
         "parallel edges (multigraphs) and falsy start labels are outside the property: correspondence only",
-        "a generator that yields more than 1000 nodes is not followed further (reported as Runaway on both sides): breadth_first(node) on a graph with a cycle reachable from the start never terminates in the real code",
+        "a generator that yields more than 1000 nodes is not followed further (reported as Runaway on both sides); since /repo 13ffad9 no explored case does that (breadth_first(node) raises RuntimeError on a reachable cycle)",
     ]
 
 
